@@ -10,6 +10,8 @@
 //	   wire path (encode group.Tx(), decode, TransactionCache.Check / CheckSign via GetTxGroup);
 //	O2 a group tampered with by a third party (who can re-chain headers with RebuiltGroup, fix counts and fees and
 //	   sign with his own keys, but cannot produce the members' signatures) fails Check or CheckSign on both paths;
+//	   every mutation is evaluated raw, re-chained (RebuiltGroup only), rebuilt (counts and last Next repaired too)
+//	   and rebuilt with the fees repaired;
 //	O3 whatever Check accepts is structurally a group and obeys the fee rule (independent model: size 2..20, every
 //	   GroupCount = size, every Header = hash of the first member, Next chained to the following member's hash and
 //	   empty on the last, members' fees zero, first member's fee >= sum of the members' required fees computed from
@@ -640,9 +642,14 @@ func TestPropGroupTamper(t *testing.T) {
 
 		// O2 + O3
 		for _, m := range genMutations(t, hs, other) {
-			for _, form := range []string{"raw", "rebuilt", "rebuilt+fee"} {
+			for _, form := range []string{"raw", "rechained", "rebuilt", "rebuilt+fee"} {
 				g := cloneGroup(m.g)
 				switch form {
+				case "rechained": // the library's RebuiltGroup only: headers and next links recomputed, nothing else repaired
+					if len(g.Txs) == 0 {
+						continue
+					}
+					g.RebuiltGroup()
 				case "rebuilt":
 					attackerRebuild(g, false)
 				case "rebuilt+fee":
